@@ -61,6 +61,11 @@ pub struct FileSpec {
 	/// build the writer with `WriterBuilder::with_owned_config` instead of `WriterBuilder::new(&mut config)`
 	#[serde(default)]
 	pub owned_config: bool,
+	/// use the free function `write_all(schema, compression, sink, iterator)` over the values of the
+	/// Serialize / SerializeAll ops (default block size, no user metadata, RANDOM sync marker: the file's bytes
+	/// are then run-dependent and stay out of digests; sizes and positions are not)
+	#[serde(default)]
+	pub via_write_all: bool,
 }
 
 pub fn blob(len: u32, seed: u64, compressible: bool) -> Vec<u8> {
@@ -127,6 +132,39 @@ pub fn run_writer(spec: &FileSpec, sink: &SimSink, mut observe: impl FnMut(&Step
 			return run;
 		}
 	};
+	if spec.via_write_all {
+		let mut items: Vec<(&Val, PresCfg)> = vec![];
+		for op in &spec.ops {
+			match op {
+				Op::Serialize { val, pres, .. } => items.push((val, PresCfg { bytes_as_seq: false, ..*pres })),
+				Op::SerializeAll { items: its } => items.extend(its.iter().map(|(v, p, _)| (v, PresCfg { bytes_as_seq: false, ..*p }))),
+				_ => {}
+			}
+		}
+		let ctxs: Vec<PresCtx> = items.iter().map(|(_, pres)| PresCtx::new(&env, *pres, None)).collect();
+		let r = catch(|| {
+			serde_avro_fast::object_container_file_encoding::write_all(
+				&schema,
+				to_crate_compression(spec.codec),
+				sink.clone(),
+				items.iter().zip(&ctxs).map(|((v, _), ctx)| Presented::new(v, &spec.schema, ctx)),
+			)
+			.map(|_| ())
+		});
+		let (res, panicked) = match r {
+			Ok(Ok(())) => {
+				run.model.extend(items.iter().map(|(v, _)| (*v).clone()));
+				(Ok(()), None)
+			}
+			Ok(Err(e)) => (Err(e.to_string()), None),
+			Err(p) => (Err("panic".into()), Some(p)),
+		};
+		let st = StepResult { op: spec.ops.len(), res, panicked, accepted_len: sink.accepted_len(), sink_calls: sink.calls(), poison_fired: false };
+		observe(&st, &run.model);
+		run.steps.push(st);
+		run.model_len_after.push(run.model.len());
+		return run;
+	}
 	let mut config = SerializerConfig::new(&schema);
 	config.allow_slow_sequence_to_bytes();
 	let meta: BTreeMap<String, ByteBuf> = spec.user_meta.iter().map(|(k, v)| (k.clone(), ByteBuf::from(v.clone()))).collect();
@@ -307,6 +345,10 @@ pub enum RKind {
 	Slice,
 	Cursor,
 	Sim(ReaderKind),
+	/// slice reader driven through the `Reader::deserialize::<T>()` iterator adaptor
+	SliceIter,
+	/// `Reader::from_reader(BufReader::new(Cursor))` (std's default 8 KiB buffer) through the iterator adaptor
+	BufReaderIter,
 }
 impl RKind {
 	pub fn label(&self) -> String {
@@ -314,10 +356,14 @@ impl RKind {
 			RKind::Slice => "slice".into(),
 			RKind::Cursor => "cursor".into(),
 			RKind::Sim(k) => k.label(),
+			RKind::SliceIter => "slice-iterator".into(),
+			RKind::BufReaderIter => "bufreader-iterator".into(),
 		}
 	}
 	pub fn class(&self) -> u64 {
 		match self {
+			RKind::SliceIter => 8,
+			RKind::BufReaderIter => 9,
 			RKind::Slice => 0,
 			RKind::Cursor => 1,
 			RKind::Sim(ReaderKind::Direct(RefillPlan::Whole)) => 2,
@@ -458,6 +504,78 @@ fn drive<'de, R>(
 	}
 }
 
+/// Same as `drive`, through the iterator adaptor: an iterator ends at the first `Ok(None)`; it is re-created to
+/// check that end of stream is stable
+fn drive_iter<'de, R>(
+	ctor: Result<(Reader<R>, BTreeMap<String, ByteBuf>), serde_avro_fast::object_container_file_encoding::FailedToInitializeReader>,
+	env: &Env,
+	ty: &Ty,
+	call_budget: usize,
+	run: &mut ReadRun,
+) where
+	R: serde_avro_fast::de::read::Read + serde_avro_fast::de::read::take::Take + std::io::BufRead + serde_avro_fast::de::read::ReadSlice<'de>,
+	<R as serde_avro_fast::de::read::take::Take>::Take: std::io::BufRead + serde_avro_fast::de::read::ReadSlice<'de>,
+{
+	let (mut reader, meta) = match ctor {
+		Ok(x) => x,
+		Err(e) => {
+			run.ctor_err = Some(e.to_string());
+			return;
+		}
+	};
+	run.meta = Some(meta.into_iter().map(|(k, v)| (k, v.into_vec())).collect());
+	let mut consecutive_err = 0;
+	for _round in 0..3 {
+		let r = catch(|| {
+			crate::tls::with_ctx_pub(env, ty, crate::world::Target::capture(), || {
+				let mut items = vec![];
+				let mut errs = 0;
+				for item in reader.deserialize::<crate::tls::ViaTls>() {
+					if items.len() >= call_budget {
+						return (items, true);
+					}
+					match item {
+						Ok(v) => {
+							errs = 0;
+							items.push(Item::Val(v.0));
+						}
+						Err(e) => {
+							errs += 1;
+							items.push(Item::Err { msg: e.to_string(), io: e.io_error().is_some() });
+							if errs >= 4 {
+								return (items, false);
+							}
+						}
+					}
+				}
+				(items, false)
+			})
+		});
+		match r {
+			Err(p) => {
+				run.panicked = Some(p);
+				std::mem::forget(reader);
+				return;
+			}
+			Ok((items, over_budget)) => {
+				run.calls += items.len() as u64 + 1;
+				consecutive_err = items.iter().rev().take_while(|i| matches!(i, Item::Err { .. })).count();
+				run.items.extend(items);
+				if over_budget {
+					run.call_budget_exhausted = true;
+					return;
+				}
+				if consecutive_err >= 4 {
+					run.gave_up_after_errors = true;
+					return;
+				}
+				run.items.push(Item::None);
+			}
+		}
+	}
+	let _ = consecutive_err;
+}
+
 /// Read a file with the real `Reader` until three consecutive `Ok(None)` or the call budget
 pub fn read_file(bytes: &[u8], env: &Env, ty: &Ty, kind: &RKind, faults: &[SourceFault], call_budget: usize) -> ReadRun {
 	let mut run = ReadRun::default();
@@ -466,6 +584,22 @@ pub fn read_file(bytes: &[u8], env: &Env, ty: &Ty, kind: &RKind, faults: &[Sourc
 			let ctor = catch(|| Reader::new_and_metadata::<BTreeMap<String, ByteBuf>>(serde_avro_fast::de::read::SliceRead::new(bytes)));
 			match ctor {
 				Ok(c) => drive(c, env, ty, call_budget, &mut run),
+				Err(p) => run.panicked = Some(p),
+			}
+		}
+		RKind::SliceIter => {
+			let ctor = catch(|| Reader::new_and_metadata::<BTreeMap<String, ByteBuf>>(serde_avro_fast::de::read::SliceRead::new(bytes)));
+			match ctor {
+				Ok(c) => drive_iter(c, env, ty, call_budget, &mut run),
+				Err(p) => run.panicked = Some(p),
+			}
+		}
+		RKind::BufReaderIter => {
+			let ctor = catch(|| {
+				Reader::new_and_metadata::<BTreeMap<String, ByteBuf>>(serde_avro_fast::de::read::ReaderRead::new(std::io::BufReader::new(std::io::Cursor::new(bytes))))
+			});
+			match ctor {
+				Ok(c) => drive_iter(c, env, ty, call_budget, &mut run),
 				Err(p) => run.panicked = Some(p),
 			}
 		}
@@ -682,6 +816,7 @@ pub fn gen_filespec(rng: &mut Rng, p: &SpecProfile) -> FileSpec {
 			let items = (0..k)
 				.map(|_| {
 					let v = val::gen_val(rng, &env, &schema, &vcfg);
+					sizes.push(ref_datum::encode(&env, &schema, &v, Layout::default()).map(|b| b.0.len()).unwrap_or(0));
 					let pres = if rng.chance(1, 2) { PresCfg::plain() } else { PresCfg::random(rng, true) };
 					let poison = if p.poison && rng.chance(1, 4) {
 						Some(Poison {
@@ -744,6 +879,7 @@ pub fn gen_filespec(rng: &mut Rng, p: &SpecProfile) -> FileSpec {
 		ops,
 		end: if rng.bool() { End::IntoInner } else { End::Drop },
 		owned_config: rng.chance(1, 4),
+		via_write_all: false,
 	}
 }
 
@@ -781,6 +917,7 @@ fn gen_blob_spec(rng: &mut Rng, codec: Codec) -> FileSpec {
 		ops,
 		end: if rng.bool() { End::IntoInner } else { End::Drop },
 		owned_config: rng.chance(1, 4),
+		via_write_all: false,
 	}
 }
 
@@ -788,7 +925,9 @@ fn gen_blob_spec(rng: &mut Rng, codec: Codec) -> FileSpec {
 pub fn gen_reader_kinds(rng: &mut Rng, file_len: usize, parsed: Option<&Parsed>, n: usize) -> Vec<RKind> {
 	let mut out = vec![RKind::Slice];
 	for _ in 0..n {
-		let k = match rng.below(10) {
+		let k = match rng.below(12) {
+			10 => RKind::SliceIter,
+			11 => RKind::BufReaderIter,
 			0 => RKind::Cursor,
 			1 => RKind::Sim(ReaderKind::Direct(RefillPlan::Whole)),
 			2 => RKind::Sim(ReaderKind::Direct(RefillPlan::Fixed(1))),
@@ -1005,4 +1144,12 @@ pub fn exec_c11_container(scn: &c11::Scn, valid: bool, out: &mut Outcome) {
 		}
 	}
 	out.digest = digest.get();
+}
+
+/// C05 / C06 only: turn a clean spec into a `write_all` one now and then
+pub fn maybe_via_write_all(rng: &mut Rng, spec: &mut FileSpec) {
+	if rng.chance(1, 12) && !spec.ops.is_empty() && spec.ops.iter().all(|o| matches!(o, Op::Serialize { poison: None, .. } | Op::SerializeAll { .. })) {
+		spec.via_write_all = true;
+		spec.user_meta.clear();
+	}
 }
